@@ -57,11 +57,29 @@ MISSED_FIRST = {
     "C18-j1": "missed: the collections of the templates had at most 6 trees; caught after a 16-tree collection with a malformed tree near its end was added",
     "C18-j2": "not a C18 violation in anything C18 controls (file reads have fixed boundaries, the wrong result is the same in every run); it breaks C13 and the C13 check catches it (multi:tree-skipped, roundtrip:newick)",
     "C18-j3": "missed: only commands were run, which prune freshly parsed (un-indexed) trees; caught after library-call templates were added",
+    "C02-h1": "missed: no label of the corpus ended with, or consisted of, a blank that only Unicode knows (form feed, vertical tab, U+00A0, U+0085); caught after such documents were added",
+    "C02-h2": "missed (exit 2 after the 15-minute backstop, sixteen workers asleep on a real mutex): outside the scheduler a leaked lock was a real hang; caught after the single-goroutine lock-held verdict and the replay by repeated execution were added, and documents with > 12 identical warnings",
+    "C08-h2": "missed: compared trees were always parsed from text, never clones of the indexed reference; caught after the history 'index, clone, exchange two tip names, compare' was added",
+    "C09-h2": "missed: one same-rank foreign name per faulty case meets the 1/128 bucket coincidence too rarely; caught after the sweep of 40 same-rank names",
+    "C09-h3": "missed: every record was its own tree object; caught after identical texts were delivered as one object (collection drawn with replacement)",
+    "C10-h1": "missed: generated references carried no supports; caught after references with fractions / percentages and a prior FBP run on the same object were added",
+    "C11-h1": "missed: the root of a rooted reference was always in the middle of its branch; caught after uneven root branches were drawn",
+    "C13-h1": "missed: names were ASCII; caught after names with multi-byte runes were drawn",
+    "C13-h2": "missed: PhyloXML documents were always written by gotree itself (rooted attribute = shape); caught after a document written by the harness with either attribute value was added",
+    "C13-h3": "missed: lengths were k/16; caught after lengths with many significant digits (1e-12 .. 1e21) were drawn",
+    "C15-h1": "missed: every group given to InsertIdenticalTips had something to insert; caught after a single-member group in front was drawn",
+    "C15-h3": "missed: start trees had no support/p-value labels; caught after they were drawn",
+    "C17-h3": "missed: names were t<i>; caught after names with '%' were drawn",
+    "C18-h2": "missed: lengths were dyadic (sums exact in any order) and the command prints 12 decimals; caught after non-dyadic lengths and a library call compared bit for bit were added",
+    "C18-h3": "missed: no Nextstrain input among the templates; caught after an export with mutations of several genes per branch was added",
+    "C03-h2": "not evaluated and not kept as a seeded change: written against the code before the repair 74b6e79 (NNI Undo after the root was moved), which rewrote the lines it changes; the patch no longer applies",
+    "C03-h3": "not evaluated and not kept as a seeded change: written against the code before the repair 74b6e79, which rewrote the lines it changes; the patch no longer applies",
+    "C17-h1": "not evaluated and not kept as a seeded change: written against the code before the repair 74b6e79 (orientation of the central branch is now derived from the actual root position), the patch no longer applies",
     "C18-n3": "only evaluated after the second strengthening round (interfering command between two runs of a template); the first version would have missed it",
 }
 # changes written for one property that do not break it within its quantifier but break another one (whose check is the one that must catch them)
 BREAKS = {"C02-k3": "C11", "C18-j2": "C13"}
-REJECTED = {"C04-j2", "C13-j2", "C13-j3"}
+REJECTED = {"C04-j2", "C13-j2", "C13-j3", "C03-h2", "C03-h3", "C17-h1"}
 for spec in sys.argv[3:]:
     prop, m = spec.split(":")
     src = os.path.join(outroot, prop + os.environ.get("OUTSUFFIX", "_out"), m)
